@@ -253,15 +253,51 @@ func AsField(v ssa.Value) (FieldRef, bool) {
 		if st == nil {
 			return FieldRef{}, false
 		}
+		if outer, ok := throughEmbeddedGlue(x.X); ok {
+			return FieldRef{Base: outer.Base, Struct: outer.Struct, Field: st.Field(x.Field).Name()}, true
+		}
 		return FieldRef{Base: x.X, Struct: TypeName(x.X.Type()), Field: fieldName(x.X.Type(), st.Field(x.Field).Name())}, true
 	case *ssa.Field:
 		st := derefStruct(x.X.Type())
 		if st == nil {
 			return FieldRef{}, false
 		}
+		if outer, ok := throughEmbeddedGlue(x.X); ok {
+			return FieldRef{Base: outer.Base, Struct: outer.Struct, Field: st.Field(x.Field).Name()}, true
+		}
 		return FieldRef{Base: x.X, Struct: TypeName(x.X.Type()), Field: fieldName(x.X.Type(), st.Field(x.Field).Name())}, true
 	}
 	return FieldRef{}, false
+}
+
+// throughEmbeddedGlue: base is (the address or value of) an embedded field whose type is a helper struct the pinned
+// tree does not have; the helper's fields then count as fields of the struct that embeds it.
+func throughEmbeddedGlue(base ssa.Value) (FieldRef, bool) {
+	if len(load.GlueStruct) == 0 || !load.GlueStruct[typeName(base.Type())] {
+		return FieldRef{}, false
+	}
+	var x ssa.Value
+	var idx int
+	b := base
+	if u, ok := b.(*ssa.UnOp); ok && u.Op == token.MUL {
+		b = u.X // embedded by pointer
+	}
+	switch y := b.(type) {
+	case *ssa.FieldAddr:
+		x, idx = y.X, y.Field
+	case *ssa.Field:
+		x, idx = y.X, y.Field
+	default:
+		return FieldRef{}, false
+	}
+	st := derefStruct(x.Type())
+	if st == nil || !st.Field(idx).Embedded() {
+		return FieldRef{}, false
+	}
+	if outer, ok := throughEmbeddedGlue(x); ok {
+		return outer, true
+	}
+	return FieldRef{Base: x, Struct: TypeName(x.Type())}, true
 }
 
 // fieldName applies the renamed-field table of the loader (a field recognised as renamed is seen under
